@@ -86,6 +86,7 @@ static void initOps(bool thorough) {
   D("dUCHnull", {{"UCH", "", ""}}, "ff", "decode-int");
   D("dD2C", {{"D2C", "", ""}}, "2001", "decode-int-divisor");
   D("dUCHd10", {{"UCH", "10", ""}}, "19", "decode-int-divisor");
+  D("dUCHd2", {{"UCH", "2", ""}}, "19", "decode-int-divisor");
   D("dULGm10", {{"ULG", "-10", ""}}, "40e20100", "decode-int-divisor");
   D("dEXP", {{"EXP", "", ""}}, "0000c03f", "decode-float");
   D("dPIN", {{"PIN", "", ""}}, "0123", "decode-int");
@@ -104,6 +105,7 @@ static void initOps(bool thorough) {
   C("cUCHd10", {{"UCH", "10", ""}}, "", "derive-divisor");
   C("cD2Cd10", {{"D2C", "10", ""}}, "json", "derive-divisor");
   C("cUINrng", {{"UIN", "", "10-100"}}, "json", "derive-range");
+  C("cUINrng2", {{"UIN", "", "20-200:10"}}, "json", "derive-range");
   C("cD2Crng", {{"D2C", "", "-1.5-2.5:0.5"}}, "json", "derive-range");
   C("cD2Cneg", {{"D2C", "-10", ""}}, "", "derive-divisor");
   if (thorough) {
